@@ -105,8 +105,9 @@ def run(tier, seed, build):
             for nm in ["v"] + ["v.%d" % k for k in range(n)]:
                 shutil.copy(os.path.join(root, "ref.save"), os.path.join(root, nm + ".save")); shutil.copy(os.path.join(root, "ref.mfe"), os.path.join(root, nm + ".mfe"))
             for k in range(n):
-                kind = rng.choice(["compile", "compile", "files", "files", "finish", "design", "finish_default"]) if k != 1 else "finish_default"
-                tn = rng.choice(["tmp%d" % k, "run.%d" % k, "t/../x%d" % k if False else "scr%d" % k])
+                # the first two commands of a batch (they run under strace): a files run with a dotted temp name, a finish with default names
+                kind = "files" if k == 0 else "finish_default" if k == 1 else rng.choice(["compile", "compile", "files", "files", "finish", "design", "finish_default"])
+                tn = "run.%d" % k if k == 0 else rng.choice(["tmp%d" % k, "run.%d" % k, "run.%d" % k, "scr%d" % k])
                 if "." in tn: dist["dotted_tempnames"] += 1
                 if kind == "compile":
                     des = rng.random() < 0.3
